@@ -24,6 +24,10 @@ import (
 	aggtypes "github.com/teleport-network/teleport/x/aggregate/types"
 	rvtypes "github.com/teleport-network/teleport/x/rvesting/types"
 	"github.com/teleport-network/teleport/x/xibc"
+	bsctypes "github.com/teleport-network/teleport/x/xibc/clients/light-clients/bsc/types"
+	ethtypes "github.com/teleport-network/teleport/x/xibc/clients/light-clients/eth/types"
+	tmtypes "github.com/teleport-network/teleport/x/xibc/clients/light-clients/tendermint/types"
+	tsstypes "github.com/teleport-network/teleport/x/xibc/clients/tss-client/types"
 	clienttypes "github.com/teleport-network/teleport/x/xibc/core/client/types"
 	"github.com/teleport-network/teleport/x/xibc/core/host"
 	packettypes "github.com/teleport-network/teleport/x/xibc/core/packet/types"
@@ -102,7 +106,8 @@ type ValObs struct {
 // decoding tables: the oracles of the model, tabulated from the real code
 type StateRow struct {
 	Value string `json:"v"`
-	Type  string `json:"t"`  // ClientType()
+	Type  string `json:"t"`  // ClientType() as the real method reports it
+	Conc  string `json:"c"`  // the concrete Go type (which light client package the value belongs to)
 	Valid bool   `json:"ok"` // Validate() / ValidateBasic() == nil
 }
 type RelRow struct {
@@ -238,7 +243,7 @@ func (t *tabler) clientState(cs exported.ClientState) string {
 	if _, ok := t.cs[k]; !ok {
 		var err error
 		p, _ := hlib.Catch(func() { err = cs.Validate() })
-		t.cs[k] = StateRow{Value: k, Type: cs.ClientType(), Valid: !p && err == nil}
+		t.cs[k] = StateRow{Value: k, Type: cs.ClientType(), Conc: concreteType(cs), Valid: !p && err == nil}
 	}
 	return k
 }
@@ -249,9 +254,24 @@ func (t *tabler) consState(cs exported.ConsensusState) string {
 	if _, ok := t.cons[k]; !ok {
 		var err error
 		p, _ := hlib.Catch(func() { err = cs.ValidateBasic() })
-		t.cons[k] = StateRow{Value: k, Type: cs.ClientType(), Valid: !p && err == nil}
+		t.cons[k] = StateRow{Value: k, Type: cs.ClientType(), Conc: concreteType(cs), Valid: !p && err == nil}
 	}
 	return k
+}
+
+// the light client package a client / consensus state value belongs to
+func concreteType(v interface{}) string {
+	switch v.(type) {
+	case *tmtypes.ClientState, *tmtypes.ConsensusState:
+		return exported.Tendermint
+	case *bsctypes.ClientState, *bsctypes.ConsensusState:
+		return exported.BSC
+	case *ethtypes.ClientState, *ethtypes.ConsensusState:
+		return exported.ETH
+	case *tsstypes.ClientState, *tsstypes.ConsensusState:
+		return exported.TSS
+	}
+	return "unknown"
 }
 
 func (t *tabler) text(s string) {
@@ -519,8 +539,15 @@ func freshCtx(a *app.Teleport) sdk.Context {
 }
 
 // the common tail of every case: pre-state on (a, ctx) -> export -> ... -> second export
-func roundTrip(res *Result, a *app.Teleport, ctx sdk.Context, committed bool) {
+func roundTrip(res *Result, a *app.Teleport, ctx sdk.Context, committed bool, seenCS []exported.ClientState, seenCons []exported.ConsensusState) {
 	t := newTabler(a)
+	// every client / consensus state the history proposed (also the rejected ones) is tabulated
+	for _, cs := range seenCS {
+		hlib.Catch(func() { t.clientState(cs) })
+	}
+	for _, cs := range seenCons {
+		hlib.Catch(func() { t.consState(cs) })
+	}
 	res.Pre = dumpAll(ctx, a)
 	t.scanDump(res.Pre)
 	var secs Sections
